@@ -9,6 +9,7 @@ NOTES = {
     'c06_b': 'missed at first (scripted faults were never fsic SolutionErrors); caught after adding the SolutionError-typed fault flavour to the Solver replay',
     'c01_a': 'missed at first by C01 (only the canonical layout was evaluated; C14 caught the identical change c14_a); caught by C01 after adding the semantic renderings (inner spaces, explicit signs)',
     'c03_a': 'missed at first (C03 built typed classes only; C15 caught the same kind of slip); caught after C03 also builds with_type_hints=False',
+    'c04_b': 'missed at first (C04 solved with offset=0 only; C02\'s guard slice covers the same ordering); caught after C04 solves feasible and infeasible periods with offsets too',
     'c10_a': 'missed at first (no falsy label inside a span); caught after adding span types range-through-zero and [\'a\', \'\', 0.0, (), \'e\'] to the C10 replay',
     'c14_b': 'missed at first (comments of the catalogue had balanced brackets); caught after the comments layout got unmatched brackets',
 }
